@@ -46,6 +46,8 @@ CONFIGS = {
     "serde_strict": dict(tlsh=BASE_FEATURES + ["serde", "strict-parser"], sim=["serde"]),
     "serde_buf": dict(tlsh=BASE_FEATURES + ["serde", "serde-buffered"], sim=["serde"]),
     "serde_buf_strict": dict(tlsh=BASE_FEATURES + ["serde", "serde-buffered", "strict-parser"], sim=["serde"]),
+    "serde_unsafe": dict(tlsh=BASE_FEATURES + ["serde", "unsafe"], sim=["serde"]),
+    "serde_plain": dict(tlsh=["std", "easy-functions", "serde", "serde-buffered"], sim=["serde"]),
 }
 
 
@@ -534,18 +536,33 @@ def matrix_compare(ctx, vd, keys, count):
     ref_lines, ref_digest = trs[ref_key]
     distinct = len(set(ref_lines))
     nviol = 0
-    for k in keys[1:]:
-        lines, digest = trs[k]
-        if digest == ref_digest and lines == ref_lines:
-            continue
-        i = next((i for i in range(min(len(lines), len(ref_lines))) if lines[i] != ref_lines[i]), min(len(lines), len(ref_lines)))
-        opj = subprocess.run([bins[k], "transcript-op", "--seed", str(vd.seed), "--index", str(i)], stdout=subprocess.PIPE, text=True).stdout.strip()
-        nviol += 1
-        vd.add_violation(k, "c07matrix", {"class": "build-differs:%s" % k, "index": i, "engine": "matrix",
-                                          "detail": "op #%d %s: build %s gives `%s`, reference build %s gives `%s`" % (
-                                              i, opj, k, lines[i] if i < len(lines) else "<missing>", ref_key, ref_lines[i] if i < len(ref_lines) else "<missing>"),
-                                          "history": {"op_index": i, "op": json.loads(opj) if opj else None, "build": k, "reference_build": ref_key,
-                                                      "features": CONFIGS[k]["tlsh"], "rustflags": CONFIGS[k].get("rustflags", "")}})
+    if len(set(d for _, d in trs.values())) > 1:
+        # majority vote per differing op: the builds in the minority are the ones reported (the nominal
+        # reference, the everything-off build, can itself be the wrong one)
+        nops = min(len(l) for l, _ in trs.values())
+        blamed = {}
+        for i in range(nops):
+            lines_i = {k: trs[k][0][i] for k in keys}
+            if len(set(lines_i.values())) == 1:
+                continue
+            groups = {}
+            for k, l in lines_i.items():
+                groups.setdefault(l, []).append(k)
+            major = max(groups.values(), key=lambda g: (len(g), ref_key in g))
+            for l, g in groups.items():
+                if g is major:
+                    continue
+                for k in g:
+                    blamed.setdefault(k, (i, l, lines_i[major[0]], major))
+        for k, (i, got, want, major) in sorted(blamed.items()):
+            opj = subprocess.run([bins[k], "transcript-op", "--seed", str(vd.seed), "--index", str(i)], stdout=subprocess.PIPE, text=True).stdout.strip()
+            nviol += 1
+            other = major[0]
+            vd.add_violation(k, "c07matrix", {"class": "build-differs:%s" % k, "index": i, "engine": "matrix",
+                                              "detail": "op #%d %s: build %s gives `%s`, the other %d build(s) (%s) give `%s`" % (i, opj, k, got, len(major), ",".join(major), want),
+                                              "history": {"op_index": i, "op": json.loads(opj) if opj else None, "build": k, "reference_build": other,
+                                                          "features": CONFIGS[k]["tlsh"], "rustflags": CONFIGS[k].get("rustflags", ""),
+                                                          "reference_features": CONFIGS[other]["tlsh"], "reference_rustflags": CONFIGS[other].get("rustflags", "")}})
     ctx.log("matrix: %d builds x %d ops in %.1fs, %d differing builds" % (len(keys), count, time.time() - t, nviol))
     vd.reports.append(("matrix", {"scenario": "c07matrix", "evaluations": count * len(keys), "distinct": distinct, "distinct_nontrivial": distinct,
                                   "rule": "build matrix: the same seeded op sequence run by one probe binary per build; distinct = distinct transcript lines of the reference build",
@@ -640,22 +657,33 @@ def check_C07(ctx, tier, seed):
     return vd.finish()
 
 
-NOSTD_FEATURE_SETS = [[], ["opt-default"], ["opt-embedded-default"], ["easy-functions"], ["opt-default", "easy-functions", "strict-parser"],
-                      ["opt-low-memory-buckets", "opt-low-memory-hex-str-decode-min-table", "opt-low-memory-hex-str-encode-min-table"]]
+NOSTD_FEATURE_SETS = [[], ["opt-default"], ["opt-embedded-default"], ["easy-functions"], ["strict-parser"], ["unsafe"], ["simd"], ["serde"],
+                      ["easy-functions", "opt-default"], ["serde", "serde-buffered"], ["easy-functions", "opt-embedded-default", "strict-parser", "unsafe"],
+                      ["opt-low-memory-buckets", "opt-low-memory-hex-str-decode-min-table", "opt-low-memory-hex-str-encode-min-table"],
+                      ["opt-default", "easy-functions", "strict-parser"], ["opt-low-memory-hex-str-decode-half-table"],
+                      ["opt-low-memory-hex-str-encode-half-table", "opt-dist-qratios-table"], ["opt-simd-body-comparison", "opt-simd-bucket-aggregation", "simd-per-arch"]]
 
 
 def nostd_builds(ctx, vd, sets):
     """Static part of C18 (a build check, not simulation): the library must compile without std and alloc."""
-    target = os.path.join(ctx.build_root, "nostd_lib", "target")
+    lanes = 4
+    def lane(i):
+        target = os.path.join(ctx.build_root, "nostd_lib", "target%d" % i)
+        res = []
+        for feats in sets[i::lanes]:
+            cmd = ["cargo", "build", "--lib", "--offline", "--quiet", "--no-default-features", "--manifest-path", os.path.join(ctx.repo, "fast-tlsh", "Cargo.toml")]
+            if feats:
+                cmd += ["--features", ",".join(feats)]
+            p = subprocess.run(cmd, env=cargo_env({"CARGO_TARGET_DIR": target}), stdout=subprocess.PIPE, stderr=subprocess.STDOUT, text=True)
+            res.append((feats, cmd, p.returncode, p.stdout))
+        return res
+    with ThreadPoolExecutor(max_workers=lanes) as ex:
+        results = [x for l in ex.map(lane, range(lanes)) for x in l]
     ok = 0
-    for feats in sets:
-        cmd = ["cargo", "build", "--lib", "--offline", "--quiet", "--no-default-features", "--manifest-path", os.path.join(ctx.repo, "fast-tlsh", "Cargo.toml")]
-        if feats:
-            cmd += ["--features", ",".join(feats)]
-        p = subprocess.run(cmd, env=cargo_env({"CARGO_TARGET_DIR": target}), stdout=subprocess.PIPE, stderr=subprocess.STDOUT, text=True)
-        if p.returncode != 0:
-            err = [l for l in p.stdout.splitlines() if l.startswith("error")][:3]
-            vd.add_violation("nostd_lib", "c18nostd", {"class": "no-std-no-alloc-build-fails", "index": 0, "engine": "build",
+    for feats, cmd, code, out in results:
+        if code != 0:
+            err = [l for l in out.splitlines() if l.startswith("error")][:3]
+            vd.add_violation("nostd_lib", "c18nostd", {"class": "no-std-no-alloc-build-fails:%s" % ("+".join(feats) or "none"), "index": 0, "engine": "build",
                                                        "detail": "cargo build --lib --no-default-features --features '%s' failed: %s" % (",".join(feats), " | ".join(err)),
                                                        "history": {"command": " ".join(cmd)}, "argv": cmd})
         else:
@@ -704,7 +732,7 @@ def check_C18(ctx, tier, seed):
     for cfg in ALLOC_CONFIGS:
         alloc_world(ctx, vd, cfg, bins[cfg], 48 if quick else 512, 1500 if quick else 20000, hard=False)
         alloc_world(ctx, vd, cfg, bins[cfg], 16 if quick else 128, 1500 if quick else 20000, hard=True)
-    nostd_builds(ctx, vd, NOSTD_FEATURE_SETS if not quick else NOSTD_FEATURE_SETS[:4])
+    nostd_builds(ctx, vd, NOSTD_FEATURE_SETS if not quick else NOSTD_FEATURE_SETS[:12])
     vd.extra["grid"] = "states = (variant, op kind [14], first call of that kind in the run?) -> 5 x 18 x 2 = 180 cells per build; see distinct_states"
     vd.extra["components_real"] = ["every core operation of fast-tlsh (new/update/finalize/processed_len/clone/from_str_bytes/TryFrom/store_*/compare/max_distance/clear_checksum/accessors/quartile), incl. first (dispatch-initialising) calls in fresh processes and on fresh threads"]
     vd.extra["components_stub"] = ["the global allocator (SimAlloc: counts while armed; returns null while armed in the allocation-failure sub-batches)"]
@@ -777,10 +805,14 @@ def check_C17(ctx, tier, seed):
     sim_batch(ctx, vd, "hooked_dbg", hb, "c11", 15_000 * mult)
     # Miri: a deterministic interpreter that reports UB; under feature `unsafe` every invariant!() is an
     # unreachable_unchecked, so a false invariant is reported as "entering unreachable code"
-    miri_cfgs = ["miri_sse2", "miri_unsafe_sse2"] if quick else ["miri_sse2", "miri_sse41", "miri_avx2", "miri_unsafe_sse2", "miri_unsafe_sse41", "miri_unsafe_avx2"]
-    per = 24 if quick else 64
+    miri_cfgs = ["miri_sse2", "miri_sse41", "miri_avx2", "miri_unsafe_sse2"] if quick else ["miri_sse2", "miri_sse41", "miri_avx2", "miri_unsafe_sse2", "miri_unsafe_sse41", "miri_unsafe_avx2"]
+    per = 12 if quick else 64
     for cfg in miri_cfgs:
-        for sc in (["c17api", "c17reader"] if quick else ["c17api", "c17reader", "c03", "c12"]):
+        if quick:
+            scs = ["c17api", "c17reader"] if cfg == "miri_unsafe_sse2" else ["c17api"]
+        else:
+            scs = ["c17api", "c17reader", "c03", "c12"]
+        for sc in scs:
             miri_batches(ctx, vd, cfg, sc, per * NCPU // 2, NCPU // 2)
     if not quick:
         miri_batches(ctx, vd, "miri_unsafe_serde", "c16", 800, 8)
@@ -800,10 +832,16 @@ def check_C11(ctx, tier, seed):
     vd = Verdict(ctx, "C11", tier, seed, "exploration")
     bins = build_many(ctx, ["hooked", "hooked_dbg"])
     n = 60_000 if tier == "quick" else 1_000_000
+    # one REAL stream in every run, started first so that it overlaps with the batches: a single update() call with a
+    # slice longer than u32::MAX (a lazily mapped zero buffer) -- the only way to reach the length conversion of one huge piece
+    side = ThreadPoolExecutor(max_workers=1)
+    side_job = side.submit(lambda: run_sim(ctx, bins["hooked"], ["bigstream", "--variant", seed % 5, "--pattern", "00", "--seed", 1,
+                                                                "--single-slice", (1 << 32) + 1000 + seed % 7])[1])
     sim_batch(ctx, vd, "hooked", bins["hooked"], "c11", n)
     sim_batch(ctx, vd, "hooked_dbg", bins["hooked_dbg"], "c11", n // 4)
     sim_batch(ctx, vd, "hooked", bins["hooked"], "c11small", n)
     sim_batch(ctx, vd, "hooked_dbg", bins["hooked_dbg"], "c11small", n // 4)
+    vd.add("hooked", side_job.result())
     if tier != "quick":
         # real multi-GiB streams (works with the guard off, too; with it on, the internal state is compared with the model's jump)
         import random
@@ -834,14 +872,14 @@ def check_C11(ctx, tier, seed):
     return vd.finish()
 
 
-SERDE_CONFIGS = ["serde", "serde_strict", "serde_buf", "serde_buf_strict"]
+SERDE_CONFIGS = ["serde", "serde_strict", "serde_buf", "serde_buf_strict", "serde_unsafe", "serde_plain"]
 
 
 def check_C16(ctx, tier, seed):
     vd = Verdict(ctx, "C16", tier, seed, "exploration")
     bins = build_many(ctx, SERDE_CONFIGS)
-    n = 100_000 if tier == "quick" else 10_000_000
-    per = max(4, NCPU // len(SERDE_CONFIGS))
+    n = 400_000 if tier == "quick" else 10_000_000
+    per = max(3, NCPU // len(SERDE_CONFIGS))
     def one(cfg):
         sim_batch(ctx, vd, cfg, bins[cfg], "c16", n, threads=per)
         sim_batch(ctx, vd, cfg, bins[cfg], "c16mock", n, threads=per)
@@ -878,9 +916,10 @@ def replay(ctx, pid, path):
         return 0
     if engine == "matrix":
         h = doc["history"]
-        for k in (h["build"], h["reference_build"]):
-            if k not in CONFIGS:
-                CONFIGS[k] = dict(tlsh=h["features"], sim=[], rustflags=h.get("rustflags", ""))
+        if h["build"] not in CONFIGS:
+            CONFIGS[h["build"]] = dict(tlsh=h["features"], sim=[], rustflags=h.get("rustflags", ""))
+        if h["reference_build"] not in CONFIGS:
+            CONFIGS[h["reference_build"]] = dict(tlsh=h.get("reference_features", PLAIN), sim=[], rustflags=h.get("reference_rustflags", ""))
         bins = build_many(ctx, [h["reference_build"], h["build"]])
         n = int(h["op_index"]) + 1
         a, _ = transcript_of(ctx, bins[h["build"]], doc["seed"], n)
@@ -899,7 +938,7 @@ def replay(ctx, pid, path):
         code, rep, err = run_sim(ctx, b, ["shuttle-replay", "--schedule-file", sf])
         return report(code == 1, (rep or {}).get("violation", {}).get("detail", "") if code == 1 else "schedule replayed cleanly")
     if engine == "build":
-        p = subprocess.run(doc["argv"], env=cargo_env({"CARGO_TARGET_DIR": os.path.join(ctx.build_root, "nostd_lib", "target")}),
+        p = subprocess.run(doc["argv"], env=cargo_env({"CARGO_TARGET_DIR": os.path.join(ctx.build_root, "nostd_lib", "target0")}),
                            stdout=subprocess.PIPE, stderr=subprocess.STDOUT, text=True)
         return report(p.returncode != 0, "build exit %d" % p.returncode)
     if engine in ("bigstream",):
